@@ -53,10 +53,16 @@
          context.Background()): the link clauses do not apply there;
      S6  no queue: whether a cancelled caller context is passed on as such (it is: the export runs in it).
 
+   FINDING E03-links-alias: for requests whose context already carries links (sc = "chain" below) the tree breaks
+   LinksComplete, see ExportContext.tla, Variant "alias".
+
    Vocabulary
-     request   what a producer hands in with ITS context: attr[r] = [n items, sc in {"span","unsampled","none"},
-               dl (0 = no caller deadline), cancel in {"no","pre","post"}];  sent[r] = [t, D]: time just before the
-               call and the absolute caller deadline (-1 = none)
+     request   what a producer hands in with ITS context: attr[r] = [n items, sc in {"span","unsampled","none","chain"},
+               up, dl (0 = no caller deadline), cancel in {"no","pre","post"}];  sc = "chain": the context is the one an
+               UPSTREAM exporter helper handed to its export function for a merged batch (an exporter that feeds other
+               exporters, service::telemetry::traces::level none): no span context of its own, but the trace links to
+               the upstream requests up = <<u1, u2, ..>> registered in it; up = <<>> otherwise.
+               sent[r] = [t, D]: time just before the call and the absolute caller deadline (-1 = none)
      call      one ATTEMPT = one call of the export function:
                [items  sequence of <<request, index>> found in the payload,
                 parent request whose trace the context's current span belongs to ("none": no valid span context),
@@ -82,20 +88,24 @@ MinOf(S) == CHOOSE x \in S : \A y \in S : x <= y
 
 ---------------------------------------------------------------------------
 Contrib(c)     == {c.items[i][1] : i \in DOMAIN c.items}                 \* requests whose data the batch holds
-HasSpan(r)     == r \in DOMAIN attr /\ attr[r].sc # "none"
+\* the span contexts a request's context carries: its own, or (chain) the links registered in it -- TestBatchContextLink:
+\* merging a context that carries links keeps all of them
+Spans(r)       == IF r \notin DOMAIN attr \/ attr[r].sc = "none" THEN {}
+                  ELSE IF attr[r].sc = "chain" THEN SetOf(attr[r].up) ELSE {r}
+Known          == DOMAIN sent \cup UNION {SetOf(attr[r].up) : r \in DOMAIN sent}
 Origins(c)     == ({c.parent} \ {"none"}) \cup SetOf(c.links)             \* what the context is connected to
 SpanOrigins(c) == ({c.parent} \ {"none"}) \cup SetOf(c.sl)                \* what the exporter span is connected to
 
 \* "Link batcher context to all batched request's span contexts"
 LinksComplete(cs, k) ==
   LET c == cs[k] IN
-  cfg.queue # "persistent" => {r \in Contrib(c) : HasSpan(r)} \subseteq (Origins(c) \cap SpanOrigins(c))
+  cfg.queue # "persistent" => UNION {Spans(r) : r \in Contrib(c)} \subseteq (Origins(c) \cap SpanOrigins(c))
 
 \* connected to nothing but span contexts of requests that were handed in (S2: not necessarily contributors).
 \* A request handed in WITHOUT a span context can still be an origin: with a recording tracer the queue starts a span
 \* ("exporter/enqueue") for it, which is then the request's span context; the driver attributes that span to the request.
 LinksSound(cs, k) ==
-  LET c == cs[k] IN (Origins(c) \cup SpanOrigins(c)) \subseteq DOMAIN sent
+  LET c == cs[k] IN (Origins(c) \cup SpanOrigins(c)) \subseteq Known
 
 ---------------------------------------------------------------------------
 (* The deadline of an attempt.  lo = a moment at which the attempt's context cannot have existed yet: the
